@@ -585,6 +585,108 @@ def ham_ownership(ctx):
                     ctx.violation(f"{name}:ownership", f"{name}(ownership=({ri},{rf})) is not those rows of the full Hamiltonian", desc)
 
 
+def permute_correspondence(ctx):
+    """permute (dense and sparse route, ket and operator): the implementation moves arrays with pairwise distinct
+    entries, the observed placement is compared INSIDE COQ with `permute_index` of coq/C15/Permute.v for every
+    entry; exhaustive over small dimension lists and ALL permutations.  Plus (exact, implementation level) the
+    inverse and composition laws proved in PropsPermute.v."""
+    import quimb as qu
+    import scipy.sparse as sp
+    from harness.common import natlist
+
+    header = ("From Coq Require Import ZArith List Bool.\nFrom QV Require Import C20.Model C20.Proofs C15.Permute.\n"
+              "Import ListNotations.\nOpen Scope Z_scope.\n"
+              "Definition zrange (n : Z) : list Z := map Z.of_nat (seq 0 (Z.to_nat n)).\n"
+              "Fixpoint zl_eqb (a b : list Z) : bool := match a, b with [], [] => true | x :: a', y :: b' => Z.eqb x y && zl_eqb a' b' "
+              "| _, _ => false end.\n"
+              "(* where each position of the RESULT comes from: by C15_permute_inverse_undoes the entry at new position m is the old "
+              "entry at permute_index dims[perm] (inv perm) m *)\n"
+              "Definition sources (dims : list Z) (perm : list nat) : list Z :=\n"
+              "  map (permute_index (takeZ perm dims) (inv perm)) (zrange (prodZ dims)).\n"
+              "Definition ket_check (dims : list Z) (perm : list nat) (res : list Z) : bool :=\n"
+              "  zl_eqb (map (fun o => o + 1) (sources dims perm)) res.\n"
+              "Definition op_check (dims : list Z) (perm : list nat) (res : list Z) : bool :=\n"
+              "  let D := prodZ dims in let src := sources dims perm in\n"
+              "  zl_eqb (flat_map (fun r => map (fun c => r * D + c + 1) src) src) res.\n")
+    cases, info = [], {}
+
+    def add(expr, d):
+        cid = len(cases)
+        cases.append((cid, expr))
+        info[cid] = d
+
+    rng = np.random.default_rng(ctx.seed + 1515)
+    dim_lists = []
+    for n in (1, 2, 3, 4):
+        for dims in itertools.product((1, 2, 3), repeat=n):
+            D = int(np.prod(dims))
+            if D == 1 or D > (24 if ctx.quick else 54):
+                continue
+            dim_lists.append(list(dims))
+    if ctx.quick:
+        # every list of <= 3 subsystems, a sample of the 4-subsystem ones
+        four = [d for d in dim_lists if len(d) == 4]
+        dim_lists = [d for d in dim_lists if len(d) < 4] + [four[i] for i in rng.choice(len(four), size=min(10, len(four)), replace=False)]
+    for dims in dim_lists:
+        n, D = len(dims), int(np.prod(dims))
+        perms = list(itertools.permutations(range(n)))
+        if ctx.quick and len(perms) > 6:
+            perms = [perms[i] for i in rng.choice(len(perms), size=8, replace=False)]
+        for perm in perms:
+            ket = np.arange(1, D + 1, dtype=float).reshape(D, 1)
+            op = np.arange(1, D * D + 1, dtype=float).reshape(D, D)
+            desc = {"call": "permute", "dims": dims, "perm": list(perm)}
+            try:
+                outs = {
+                    "ket:dense": np.asarray(qu.permute(qu.qu(ket), dims, perm)),
+                    "ket:sparse": qu.permute(sp.csr_matrix(ket), dims, perm).toarray(),
+                    "op:dense": np.asarray(qu.permute(qu.qu(op), dims, perm)),
+                    "op:sparse": qu.permute(sp.csr_matrix(op), dims, perm).toarray(),
+                }
+            except Exception as e:
+                ctx.violation("permute:raised", f"permute(dims={dims}, perm={list(perm)}) raised {type(e).__name__}: {e}", desc)
+                continue
+            for route, res in outs.items():
+                ctx.count(("permute", tuple(dims), perm, route), perm != tuple(range(n)))
+                ctx.bump("permute_corr:" + route)
+                if D * D > (150 if ctx.quick else 2500) and route.startswith("op"):
+                    continue
+                chk = "ket_check" if route.startswith("ket") else "op_check"
+                add(f"{chk} {zlist(dims)} {natlist(perm)} {zlist([int(round(v)) for v in np.asarray(res).real.reshape(-1)])}",
+                    {**desc, "route": route})
+            # laws (exact: permutations of exactly representable entries)
+            inv = list(np.argsort(perm))
+            ndims = [dims[k] for k in perm]
+            for route, arr, mk in (("dense", op, lambda a: qu.qu(a)), ("sparse", op, sp.csr_matrix)):
+                back = qu.permute(qu.permute(mk(arr), dims, perm), ndims, inv)
+                back = back.toarray() if sp.issparse(back) else np.asarray(back)
+                if not np.array_equal(back.real, arr):
+                    ctx.violation(f"permute:inverse:{route}", f"permute with the inverse permutation does not undo permute (dims={dims}, perm={list(perm)})",
+                                  {**desc, "route": route})
+                p2 = list(rng.permutation(n))
+                comp = [perm[k] for k in p2]
+                two = qu.permute(qu.permute(mk(arr), dims, perm), ndims, p2)
+                one = qu.permute(mk(arr), dims, comp)
+                two = two.toarray() if sp.issparse(two) else np.asarray(two)
+                one = one.toarray() if sp.issparse(one) else np.asarray(one)
+                if not np.array_equal(two, one):
+                    ctx.violation(f"permute:compose:{route}", f"permuting twice differs from permuting once with the composed permutation "
+                                  f"(dims={dims}, p1={list(perm)}, p2={p2})", {**desc, "route": route, "p2": p2})
+    failed, errors = ctx.coq_cases("permute", header, cases, shard=150)
+    for path, err in errors:
+        ctx.broken_obligation("correspondence:" + path.split("/")[-1], err)
+    seen = set()
+    for c in failed:
+        d = info[c]
+        key = "permute:index_map:" + d["route"]
+        if key in seen:
+            continue
+        seen.add(key)
+        ctx.violation(key, f"permute ({d['route']}) with dims={d['dims']} perm={d['perm']} does not place the entries where the "
+                           "proved index map permute_index (coq/C15/Permute.v) puts them", d)
+    ctx.extra["coq_cases_permute"] = len(cases)
+
+
 def run(ctx):
     ctx.extra["rule"] = RULE
     ctx.trusted_base += [
@@ -594,13 +696,15 @@ def run(ctx):
         "modelled, not verified: numpy/scipy kron, reshape/transpose, sparse formats; those are exercised only by the "
         "exact oracle stream against plain numpy references",
     ]
-    ctx.check_props(["Base/Sums.vo", "C15/Model.vo", "C15/Proofs.vo", "C15/Adjoint.vo", "C15/Props.v"])
+    ctx.check_props(["Base/Sums.vo", "C15/Model.vo", "C15/Proofs.vo", "C15/Adjoint.vo", "C20/Model.vo", "C20/Proofs.vo",
+                     "C15/Permute.vo", "C15/Props.v", "C15/PropsPermute.v"])
     ctx.stage(ownership_stream)
     ctx.stage(ikron_stream)
     ctx.stage(compress_stream)
     ctx.stage(algebra_stream)
     ctx.stage(dim_map_nd_stream)
     ctx.stage(ham_ownership)
+    ctx.stage(permute_correspondence)
 
 
 def replay(ctx, path):
